@@ -396,6 +396,9 @@ SPECS += [
          cmpops={("DT", "<", "DT"): "p_lt"}),
 ]
 
+from .srcspecs_filt import SPECS_FILT, HEADER_FILT  # noqa: E402  (tag filt: properties.py, Filter classes, dispatch)
+SPECS += SPECS_FILT; HEADER += HEADER_FILT  # noqa: E702
+
 
 def regenerate(repo: Path, coq_dir: Path):
     """Rewrite Gen/Source.v if its content changed.  Returns ({name: error}, text)."""
